@@ -159,9 +159,10 @@ CHECKS = {
               "InitProtect/EncryptFragment (cenc avc/hevc/audio, cbcs audio and corpus avc), encoded, decoded, decrypted by "
               "DecryptInit/DecryptSegment, encoded and read back by the independent ISO reader; the recorded round-trip outcomes "
               "(samples, sample entry restored, sinf gone, non-protection boxes kept byte-identically, offsets) are validated by "
-              "CencTrace.tla."),
-        note=("Trusted: TLC, Go driver, its walker/ISO reader. Keys are fixed; IVs from 7 classes incl. wrap. Third-party encrypted "
-              "corpus files (R5) are not yet exercised. cbcs video only on corpus content."),
+              "CencTrace.tla. The five encrypted files of the repository that other tools produced (cenc and cbcs multi-traf "
+              "files with a clear audio track, cbcs audio, PIFF audio and video with uuid senc) are decrypted by the library and, "
+              "independently, by the harness (own senc walker + raw AES block function) and compared sample by sample."),
+        note=("Trusted: TLC, Go driver, its walker/ISO reader. Keys are fixed; IVs from 7 classes incl. wrap."),
         technique="TLA+ spec: TLC enumerates sample layouts, replay through real encrypt/decrypt, TLC trace validation of outcomes",
         design_ref="DESIGN.md section 5 C06/C07",
     ),
